@@ -830,6 +830,8 @@ def _fold_constants(node):
                         r = a == b
                     elif isinstance(op, ast.NotEq):
                         r = a != b
+                    elif isinstance(op, (ast.Lt, ast.LtE, ast.Gt, ast.GtE)) and all(isinstance(v, (int, float)) for v in (a, b)):
+                        r = {ast.Lt: a < b, ast.LtE: a <= b, ast.Gt: a > b, ast.GtE: a >= b}[type(op)]
                     else:
                         r = None
                 except Exception:      # noqa: BLE001
@@ -1105,6 +1107,36 @@ def _specialise_round(trees):
 
             def visit_Lambda(self_, x):
                 return x
+        # ... unless the paths that only a caller of the new parameter reaches act on the model (they call into the package or store a field): what such
+        # a caller gets is then part of what the library does -- `simulate(d, progress_updates=10)` running ten stages of d / 10 -- and is analysed
+        def effects(f_):
+            from collections import Counter
+            out = Counter()
+            for x in ast.walk(f_):
+                if isinstance(x, ast.Call):
+                    nm_ = x.func.attr if isinstance(x.func, ast.Attribute) else x.func.id if isinstance(x.func, ast.Name) else None
+                    if nm_ in defs_by_name and not (isinstance(x.func, ast.Name) and x.func.id in bind_all):
+                        out[('call', nm_)] += 1
+                elif isinstance(x, ast.Attribute) and isinstance(x.ctx, (ast.Store, ast.Del)):
+                    out[('store', x.attr)] += 1
+            return out
+        trial = copy.deepcopy(fn)
+
+        class PutT(ast.NodeTransformer):
+            def visit_Name(self_, x):
+                if x.id in bind and isinstance(x.ctx, ast.Load):
+                    return ast.copy_location(copy.deepcopy(bind[x.id]), x)
+                return x
+
+            def visit_FunctionDef(self_, x):
+                return x if x is not trial else self_.generic_visit(x)
+
+            def visit_Lambda(self_, x):
+                return x
+        PutT().generic_visit(trial)
+        _fold_constants(trial)
+        if effects(fn) - effects(trial):
+            return
         Put().generic_visit(fn)
         _fold_constants(fn)
         if not fn.body:
@@ -1265,6 +1297,25 @@ def _strip_diagnostics(trees):
             pass
         # an `else:` branch that only logged is now `else: pass`; `if c: pass` with nothing else is left as it is (the test may matter to a rule)
         ast.fix_missing_locations(t)
+
+
+def _unused_enumerate_counters(trees):
+    """`for k, x in enumerate(L[, start])` whose counter k is read nowhere in the function (it served a progress report that the diagnostics pass
+    removed, say) is the loop `for x in L`: enumerate() walks L with the same iterator."""
+    for t in trees:
+        for fn in [x for x in ast.walk(t) if isinstance(x, (ast.FunctionDef, ast.Lambda))]:
+            if isinstance(fn, ast.Lambda):
+                continue
+            loads = {}
+            for x in ast.walk(fn):
+                if isinstance(x, ast.Name) and isinstance(x.ctx, ast.Load):
+                    loads[x.id] = loads.get(x.id, 0) + 1
+            for lp in [x for x in ast.walk(fn) if isinstance(x, ast.For)]:
+                tg, it = lp.target, lp.iter
+                if isinstance(tg, ast.Tuple) and len(tg.elts) == 2 and isinstance(tg.elts[0], ast.Name) and not loads.get(tg.elts[0].id) \
+                        and isinstance(it, ast.Call) and isinstance(it.func, ast.Name) and it.func.id == 'enumerate' and 1 <= len(it.args) + len(it.keywords) <= 2 \
+                        and it.args and all(k.arg == 'start' for k in it.keywords) and not isinstance(it.args[0], ast.Starred):
+                    lp.target, lp.iter = tg.elts[1], it.args[0]
 
 
 def _plain_assignments(trees):
@@ -1570,6 +1621,7 @@ class Program:
         _strip_diagnostics([t[2] for t in self.mods.values()])
         _specialise_new_optional_parameters([t[2] for t in self.mods.values()])
         _plain_assignments([t[2] for t in self.mods.values()])
+        _unused_enumerate_counters([t[2] for t in self.mods.values()])
         _positional_arguments([t[2] for t in self.mods.values()])
         _explicit_dataclass_init([t[2] for t in self.mods.values()])
         _getattr_spellings([t[2] for t in self.mods.values()])
